@@ -4,20 +4,29 @@ import conc
 import driver
 
 PROPERTIES_FILE = "Properties/Properties_C09.v"
-COQ_DEPS = ["Proofs/Once_proofs.vo"]
+COQ_DEPS = ["Proofs/Once_proofs.vo", "Proofs/OnceR_proofs.vo"]
 GEN_MODULES = ["Gen_once"]
 LEVEL = "proof"
 TRUSTED = [
     "Model/Once.v is hand-written control flow around generated pieces (rmw-loop body, memory orders, constants, atomic-site "
-    "lists of dispatch_once_f / _dispatch_once_wait from Gen_once); it is tied by (a) the site-list equalities checked by Coq and "
-    "(b) per-thread trace conformance: every recorded thread trace of the real library must be accepted by Once.tstep",
+    "lists of dispatch_once_f / _dispatch_once_wait from Gen_once); it is tied by (a) the site-list equalities checked by Coq, "
+    "(b) per-thread trace conformance: every recorded thread trace of the real library must be accepted by Once.tstep_vis "
+    "(= Once.tstep plus the one hidden plain read of the inline wrapper, Once_proofs.tstep_vis_sound) and (c) whole-round "
+    "replay: all threads of a round together must be a run of the global model Once.gstep (OnceR.replay)",
+    "the inline fast path of dispatch/once.h (_dispatch_once_f: plain read of the predicate, ~0l = done) is a program point of "
+    "the model (PFast / PFRet); the read is not seen by the hook: whether it saw ~0l is inferred from what the thread does "
+    "next (return mark, or the compare-exchange of the library call); the harness calls the header's own inline function",
+    "not modelled: an initialiser that calls dispatch_once on the same predicate (the library crashes: 'trying to lock "
+    "recursively'; client obligation) or on another predicate (an independent instance of the model); a predicate "
+    "overwritten by the client (crash 'lock not owned by current thread': unreachable in the model, C09_broadcast_crash_unreachable)",
     "atomicity: each os_atomic_* operation is one step; interleaving semantics is sequentially consistent (memory-order "
     "strength is checked separately against the source, see C05)",
     "kernel: futex_wait may return spuriously, FUTEX_WAKE wakes every sleeper on the word; scheduler fairness is assumed for "
     "the 'released' clause (the theorem shows a wake-up is always pending, not when it is scheduled)",
     "thread lock values (tid & 0x3fffffff) are distinct and non-zero",
 ]
-ASSUMPTIONS = ["x86-64 inline fast path of dispatch/once.h is a plain read; the harness reproduces it",
+ASSUMPTIONS = ["the inline fast path of dispatch/once.h is a plain read followed by a compiler barrier: sequentially consistent "
+               "semantics assumed here, the visibility of the initialiser's writes to a fast-path caller is C05's subject",
                "fair scheduling of the owner thread for the liveness clause"]
 
 
@@ -38,18 +47,19 @@ def analyse(text, label):
     for l in other:
         f = l.split()
         if f[0] == "R":
-            rounds[int(f[1])] = (int(f[2]), int(f[3]))
+            rounds[int(f[1])] = (int(f[2]), int(f[3]), int(f[4], 16) if len(f) > 4 else None)
     byround = {}
     for thr, evs in per.items():
         for e in evs:
             byround.setdefault(e.obj, {}).setdefault(thr, []).append(e)
-    stats = {"rounds": len(rounds), "threads": 0, "waiter_traces": 0, "slept": 0, "cas_retries": 0, "fast_path": 0,
-             "eintr_or_spurious_returns": 0, "wake_calls": 0}
-    for rd, (n, inits) in sorted(rounds.items()):
+    stats = {"rounds": len(rounds), "threads": 0, "waiter_traces": 0, "slept": 0, "cas_retries": 0, "calls_direct": 0,
+             "calls_through_inline_wrapper": 0, "fast_path_returns": 0, "eintr_or_spurious_returns": 0, "wake_calls": 0}
+    groups = []
+    for rd, (n, inits, pred) in sorted(rounds.items()):
         thr_ev = byround.get(rd, {})
         begins = [e for evs in thr_ev.values() for e in evs if e.kind == 102]
         ends = [e for evs in thr_ev.values() for e in evs if e.kind == 103]
-        rets = [e for evs in thr_ev.values() for e in evs if e.kind in (101, 104)]
+        rets = [e for evs in thr_ev.values() for e in evs if e.kind == 101]
         if inits != 1 or len(begins) != 1:
             fails.append({"key": "%s:round%d:init-count" % (label, rd), "what": "initialiser ran %d times in a race of %d threads "
                           "on one predicate" % (inits, n), "round": rd, "label": label})
@@ -61,10 +71,16 @@ def analyse(text, label):
                                   "before the initialiser completed (stamp %d), %d racing threads" % (e.seq, endseq, n),
                                   "round": rd, "label": label})
                     break
+        if pred is not None and pred != 0xFFFFFFFFFFFFFFFF:
+            fails.append({"key": "%s:round%d:final-word" % (label, rd), "what": "the predicate is %#x after all calls returned, "
+                          "not ~0l" % pred, "round": rd, "label": label})
+        group = []
         for thr, evs in thr_ev.items():
             stats["threads"] += 1
-            tr = [e for e in evs if e.kind != 104]
-            stats["fast_path"] += sum(1 for e in evs if e.kind == 104)
+            tr = list(evs)
+            stats["calls_direct"] += sum(1 for e in tr if e.kind == 100 and e.a == 0)
+            stats["calls_through_inline_wrapper"] += sum(1 for e in tr if e.kind == 100 and e.a == 1)
+            stats["fast_path_returns"] += sum(1 for a, b in zip(tr, tr[1:]) if a.kind == 100 and a.a == 1 and b.kind == 101)
             if any(e.kind == 32 for e in tr):
                 stats["slept"] += 1
             if any(e.kind == 1 for e in tr):
@@ -74,7 +90,66 @@ def analyse(text, label):
             stats["eintr_or_spurious_returns"] += sum(1 for e in tr if e.kind == 33 and e.b != 0)
             if tr:
                 traces.append((tr[0].tid & 0x3fffffff, tr, rd, thr))
-    return fails, traces, stats
+                group.append((tr[0].tid & 0x3fffffff, tr, thr))
+        groups.append((rd, group))
+    return fails, traces, stats, groups
+
+
+REPLAY_OUT = ["done", "left", "events_not_abstracted", "stuck_self", "stuck_event_index", "stuck_hidden_kind", "word_is_done",
+              "word_low32", "starts", "finished", "early_ret", "inv_b", "all_idle", "nobody_asleep"]
+
+
+def global_replay(name, groups, chunk=40):
+    """groups: list of (label, [(self, [Ev], thread#)]): every round is replayed, all its threads together, on the global model
+    Once.gstep by OnceR.replay inside Coq; returns one dict (REPLAY_OUT) per round"""
+    out = []
+    for c0 in range(0, len(groups), chunk):
+        part = groups[c0:c0 + chunk]
+        body = ["Definition rounds : list (list (Z * list (Z * event))) := ["]
+        body.append(";\n".join("[%s]" % "; ".join("(%d, [%s])" % (sv, "; ".join("(%d, %s)" % (2 * e.seq, e.coq()) for e in tr))
+                                                   for (sv, tr, _) in grp) for (_, grp) in part))
+        body.append("].")
+        body.append("Eval vm_compute in map OnceR.replay rounds.")
+        ok, vals, raw = driver.coq_eval("%s_%d" % (name, c0), ["Word", "Conc", "Replay", "Gen_once", "Once", "OnceR"], "\n".join(body) + "\n",
+                                        timeout=900)
+        if not ok or len(vals) != 1:
+            raise RuntimeError("coq replay evaluation failed: " + raw[-2000:])
+        xs = driver.ints(vals[0])
+        k = len(REPLAY_OUT)
+        if len(xs) != k * len(part):
+            raise RuntimeError("coq replay evaluation: %d values for %d rounds" % (len(xs), len(part)))
+        out += [dict(zip(REPLAY_OUT, xs[k * i:k * i + k])) for i in range(len(part))]
+    return out
+
+
+def replay_mismatches(res, groups, seedlabel):
+    """a round that is not replayed completely, or whose end state is not the completed gate, is a mismatch"""
+    mism, okc = [], 0
+    for r, (rd, grp) in zip(res, groups):
+        nact = r["done"] + r["left"]
+        if r["left"] != 0 or r["events_not_abstracted"] != 0:
+            stuck = None
+            for (sv, tr, thr) in grp:
+                if sv == r["stuck_self"] and 0 <= r["stuck_event_index"] < len(tr):
+                    stuck = {"thread": thr, "self": sv, "event": tr[r["stuck_event_index"]].brief(),
+                             "stamp": tr[r["stuck_event_index"]].seq,
+                             "before_it": "the hidden plain read of the inline wrapper" if r["stuck_hidden_kind"] == 1 else None}
+            mism.append({"what": "whole-round replay on the global model Once.gstep: the model does not accept the recorded actions of "
+                         "the round in any order the scheduler tries (first unmatched action in detail): the implementation took a step "
+                         "the global model does not have in that state",
+                         "detail": {"label": seedlabel, "round": rd, "first_unmatched": stuck, "executed": r["done"], "of": nact,
+                                    "state": {k: r[k] for k in REPLAY_OUT[6:]},
+                                    "traces": [{"self": sv, "trace": ["%d:%s" % (e.seq, e.brief()) for e in tr][:30]} for (sv, tr, _) in grp][:8]}})
+            continue
+        bad = [k for k, want in (("inv_b", 1), ("word_is_done", 1), ("starts", 1), ("finished", 1), ("early_ret", 0), ("all_idle", 1),
+                                 ("nobody_asleep", 1)) if r[k] != want]
+        if bad:
+            mism.append({"what": "whole-round replay on the global model Once.gstep: the state the model reaches by replaying the round is "
+                         "not the completed gate (inv_b = OnceR.inv_b, proved true on reachable states)",
+                         "detail": {"label": seedlabel, "round": rd, "wrong": bad, "state": {k: r[k] for k in REPLAY_OUT[6:]}}})
+            continue
+        okc += 1
+    return mism, okc
 
 
 def correspond(ctx):
@@ -84,11 +159,17 @@ def correspond(ctx):
         seed = ctx.seed * 1000 + i
         permille = [0, 150, 400][i % 3]
         text = run_harness(ctx, seed, rounds, permille)
-        f, tr, st = analyse(text, "seed%d" % seed)
+        f, tr, st, groups = analyse(text, "seed%d" % seed)
         fails += f
         alltr += [(sv, t, rd, thr, seed) for (sv, t, rd, thr) in tr]
         for k, v in st.items():
             total[k] = total.get(k, 0) + v
+        res = global_replay("c09_replay_%d" % i, groups)
+        rm, okc = replay_mismatches(res, groups, "seed%d" % seed)
+        mism += rm
+        total["rounds_replayed_on_global_model"] = total.get("rounds_replayed_on_global_model", 0) + okc
+        total["rounds_total_for_replay"] = total.get("rounds_total_for_replay", 0) + len(groups)
+        total["replay_actions"] = total.get("replay_actions", 0) + sum(r["done"] for r in res)
     res = conc.coq_conform("c09_conf", ["Word", "Conc", "Gen_once", "Once"], "conform", [(sv, t) for (sv, t, _, _, _) in alltr])
     for (i, idle), (sv, t, rd, thr, seed) in zip(res, alltr):
         if i != -1 or idle != 1:
@@ -101,11 +182,17 @@ def correspond(ctx):
     slept = [x for x in alltr if any(e.kind == 32 for e in x[1])][:2]
     samples += [{"self": sv, "trace": [e.brief() for e in t]} for (sv, t, _, _, _) in slept]
     return {"evaluations": len(alltr), "distinct_nontrivial": distinct,
-            "rule": "races of 2..8 threads on fresh predicates (some threads calling twice, plain-read fast path included), schedule "
-                    "perturbation inside the library's atomic operations (0/15/40 percent of events) and SIGUSR1 storms without "
-                    "SA_RESTART; every per-thread event trace recorded by the DISPATCH_VERIF hook is replayed through Once.tstep "
-                    "inside Coq; API-level oracle: one initialiser run per predicate, no return stamp before the initialiser's end "
-                    "stamp; distinct = distinct shapes (event kinds, CAS outcomes, DONE observed) of thread traces",
+            "rule": "races of 2..8 threads on fresh predicates (some threads calling twice; every call either directly to the library's "
+                    "dispatch_once_f or through the real inline wrapper _dispatch_once_f of dispatch/once.h; one later call through "
+                    "the wrapper per predicate), schedule perturbation inside the library's atomic operations (0/15/40 percent of "
+                    "events) and SIGUSR1 storms without SA_RESTART; every per-thread event trace recorded by the DISPATCH_VERIF hook "
+                    "(fast-path calls included: call mark, return mark) is replayed through Once.tstep_vis inside Coq; WHOLE-ROUND "
+                    "REPLAY: all threads of a round, merged by the recorder's stamps, are replayed on the global model Once.gstep "
+                    "(OnceR.replay inside Coq: an action is taken only when the model accepts it with the values the library "
+                    "observed; every action must be consumed), the end state must be the completed gate (word ~0l, one start, "
+                    "finished, no early return, everybody outside and awake) and satisfy the boolean invariant OnceR.inv_b; API-level "
+                    "oracle: one initialiser run per predicate, no return stamp before the initialiser's end stamp, predicate ~0l "
+                    "at the end; distinct = distinct shapes (event kinds, CAS outcomes, DONE observed) of thread traces",
             "samples": samples, "distribution": total, "traces_validated_against_impl": len(alltr),
             "mismatches": mism[:20], "failures": fails[:20]}
 
@@ -116,7 +203,7 @@ def replay(ctx, obj):
         lab = f.get("label", "seed1")
         seed = int(lab.replace("seed", "")) if lab.startswith("seed") else 1
         text = run_harness(ctx, seed, 60, [0, 150, 400][seed % 3])
-        f2, _, _ = analyse(text, lab)
+        f2, _, _, _ = analyse(text, lab)
         print("re-run with seed %d: %d failures" % (seed, len(f2)))
         for x in f2[:5]:
             print("  ", x["what"])
